@@ -234,7 +234,7 @@ impl Host {
             let mut new_roots = vec![];
             while let Some(ev) = queue.pop_front() {
                 progressed = true;
-                if let Some(c) = apply_event(&self.uni, model, ev) {
+                if let Some((_, c)) = apply_event(&self.uni, model, ev) {
                     new_roots.push(compile(&c, &self.uni));
                 }
             }
@@ -282,7 +282,7 @@ impl Host {
             let mut new_roots = vec![];
             while let Some(ev) = queue.pop_front() {
                 progressed = true;
-                if let Some(c) = apply_event(&self.uni, model, ev) {
+                if let Some((_, c)) = apply_event(&self.uni, model, ev) {
                     new_roots.push((Some(compile(&c, &self.uni)), Arc::new(Flag(std::sync::atomic::AtomicBool::new(true)))));
                 }
             }
@@ -516,10 +516,12 @@ pub fn run_case(u: &Universe, cfg: &CaseCfg) -> Result<CaseInfo, CaseFail> {
     crate::gen::sanitize(&mut u);
     let u = &u;
     let legacy = cfg.host == HostKind::Legacy;
+    // one core, both API families: only where there is a core
+    let mask = if matches!(cfg.host, HostKind::Core | HostKind::BridgeBincode | HostKind::BridgeJson) { u.legacy_mask } else { 0 };
     let sink = Sink::new();
-    let guard = UniCtx::register(u, sink.clone(), legacy);
+    let guard = UniCtx::register_mixed(u, sink.clone(), legacy, mask);
     let uni = guard.0.clone();
-    let reference = RefRt::new(u, legacy);
+    let reference = RefRt::new(u, legacy).with_legacy_mask(mask);
     let _disposer = crate::refrt::Disposer(reference.clone());
     reference.world().tolerate_retaining = cfg.tolerate_retaining;
     let mut host = Host::new(cfg.host, uni.clone());
@@ -804,9 +806,9 @@ pub fn run_case(u: &Universe, cfg: &CaseCfg) -> Result<CaseInfo, CaseFail> {
             }
             if !legacy {
                 if let Some(n) = host.executor_tasks() {
-                    let want = reference.live_hosted_commands();
-                    if n != want {
-                        fails.push(format!("[executor-occupancy] the core's executor holds {n} tasks, {want} commands returned by update are unfinished"));
+                    let (cmds, tasks) = (reference.live_hosted_commands(), reference.live_legacy_tasks());
+                    if n != cmds + tasks {
+                        fails.push(format!("[executor-occupancy] the core's executor holds {n} tasks, {cmds} commands returned by update are unfinished{}", if tasks > 0 { format!(" and {tasks} tasks of the legacy API have not finished") } else { String::new() }));
                     }
                 }
             }
